@@ -898,6 +898,95 @@ def generate(repo):
            'def cropReturnsEarly (left right top bottom : Int) : Bool := decide (left = 0 ∧ right = 0 ∧ top = 0 ∧ bottom = 0)\n'
            'def cropValidityIsFinite : Bool := true')
 
+    # ---- the reported statistics: which util function each Interferogram property hands `self.data` to
+    def stats_delegation():
+        imported = {}
+        for n in ig.body:
+            if isinstance(n, ast.ImportFrom) and n.module == 'util' and n.level == 1:
+                for a in n.names:
+                    imported[a.asname or a.name] = a.name
+        code = {'mean': 0, 'pv': 1, 'rms': 2, 'Sa': 3, 'std': 4}
+        rebound = {t.id for n in ig.body if isinstance(n, ast.Assign) for t in n.targets if isinstance(t, ast.Name)} | \
+                  {n.name for n in ig.body if isinstance(n, (ast.FunctionDef, ast.ClassDef)) and n.name != 'psd'}
+        out = []
+        for prop in ('pv', 'rms', 'Sa', 'std'):
+            fn = None
+            for n in der.body:
+                if isinstance(n, ast.FunctionDef) and n.name == prop and any(ast.unparse(d) == 'property' for d in n.decorator_list):
+                    fn = n
+            if fn is None:
+                raise Untranslatable(f'Interferogram.{prop} is not a property')
+            body = [st for st in fn.body if not (isinstance(st, ast.Expr) and isinstance(st.value, ast.Constant))]
+            if not (len(body) == 1 and isinstance(body[0], ast.Return) and isinstance(body[0].value, ast.Call)):
+                raise Untranslatable(f'Interferogram.{prop} is not `return f(self.data)`')
+            call = body[0].value
+            f = call.func
+            if isinstance(f, ast.Name) and f.id in imported and f.id not in rebound:
+                callee = imported[f.id]
+            elif isinstance(f, ast.Attribute) and ast.unparse(f.value) in ('util', 'prysm.util'):
+                callee = f.attr
+            else:
+                raise Untranslatable(f'Interferogram.{prop} calls {ast.unparse(f)[:30]}')
+            if callee not in code:
+                raise Untranslatable(f'Interferogram.{prop} calls util.{callee}')
+            if not (len(call.args) == 1 and not call.keywords and _is_self_attr(call.args[0], ('data',))):
+                raise Untranslatable(f'Interferogram.{prop}: argument is not self.data')
+            out.append(code[callee])
+        return ('/-- util function (0 mean, 1 pv, 2 rms, 3 Sa, 4 std) applied to `self.data` by the properties pv, rms, Sa, std (in this order) -/\n'
+                f'def ifgStatCallee : List Nat := {out}')
+    g.item('stats.delegation', 'prysm/interferogram.py:Interferogram.{pv,rms,Sa,std}', lambda: ast.Module(body=[n for n in der.body if isinstance(n, ast.FunctionDef) and n.name in ('pv', 'rms', 'Sa', 'std')], type_ignores=[]),
+           stats_delegation, 'def ifgStatCallee : List Nat := [1, 2, 3, 4]')
+
+    # ---- pad: the shape handed to pad2d (samples -> shape arithmetic, which count goes to which axis)
+    def pad_shape():
+        from pyexpr2lean import Tr
+        fn = info.methods['pad']
+        int_both = None
+        gen = None
+        call_ok = None
+        for st in ast.walk(fn):
+            if isinstance(st, ast.If) and ast.unparse(st.test).replace(' ', '') in ('isinstance(samples,int)', 'isinstance(samples,(int,np.integer))',
+                                                                                 'isinstance(samples,numbers.Integral)', 'np.isscalar(samples)'):
+                b = st.body
+                int_both = (len(b) == 1 and isinstance(b[0], ast.Assign) and ast.unparse(b[0].targets[0]) == 'samples'
+                            and ast.unparse(b[0].value).replace(' ', '') in ('(samples,samples)', '[samples,samples]'))
+            if isinstance(st, ast.Assign) and ast.unparse(st.targets[0]) == 'shape' and isinstance(st.value, ast.Call) \
+                    and ast.unparse(st.value.func) in ('tuple', 'list') and len(st.value.args) == 1 \
+                    and isinstance(st.value.args[0], (ast.GeneratorExp, ast.ListComp)):
+                gen = st.value.args[0]
+            if isinstance(st, ast.Assign) and _is_self_attr(st.targets[0], ('data',)) and isinstance(st.value, ast.Call) \
+                    and ast.unparse(st.value.func) == 'pad2d':
+                c = st.value
+                kws = {k.arg: ast.unparse(k.value) for k in c.keywords}
+                arr = ast.unparse(c.args[0]) if c.args else kws.get('array')
+                call_ok = (arr == 'self.data' and kws.get('out_shape') == 'shape' and kws.get('value') == 'value'
+                           and 'Q' not in kws and len(c.args) <= 1)
+        if gen is None or len(gen.generators) != 1 or gen.generators[0].ifs:
+            raise Untranslatable('no `shape = tuple(<e> for .. in zip(..))`')
+        comp = gen.generators[0]
+        if not (isinstance(comp.iter, ast.Call) and ast.unparse(comp.iter.func) == 'zip' and len(comp.iter.args) == 2
+                and isinstance(comp.target, ast.Tuple) and len(comp.target.elts) == 2
+                and all(isinstance(e, ast.Name) for e in comp.target.elts)):
+            raise Untranslatable('shape comprehension is not over zip(a, b)')
+        envs = [{}, {}]
+        for name, it in zip(comp.target.elts, comp.iter.args):
+            src = ast.unparse(it)
+            if src in ('self.data.shape', 'self.shape'):
+                envs[0][name.id], envs[1][name.id] = 'rows', 'cols'
+            elif src == 'samples':
+                envs[0][name.id], envs[1][name.id] = 's0', 's1'
+            else:
+                raise Untranslatable(f'zip over {src[:30]}')
+        if call_ok is None or int_both is None:
+            raise Untranslatable('no pad2d call / no integer-samples branch')
+        sig = '(rows cols s0 s1 : Int) : Int'
+        b = lambda x: 'true' if x else 'false'   # noqa: E731
+        return (f'def padShape0 {sig} := {Tr(envs[0]).expr(gen.elt)}\ndef padShape1 {sig} := {Tr(envs[1]).expr(gen.elt)}\n'
+                f'def padIntSamplesBothAxes : Bool := {b(int_both)}\ndef padHandsDataValueShapeToPad2d : Bool := {b(call_ok)}')
+    g.item('pad.shape', 'prysm/interferogram.py:Interferogram.pad', lambda: info.methods['pad'], pad_shape,
+           'def padShape0 (rows cols s0 s1 : Int) : Int := rows + s0\ndef padShape1 (rows cols s0 s1 : Int) : Int := cols + s1\n'
+           'def padIntSamplesBothAxes : Bool := true\ndef padHandsDataValueShapeToPad2d : Bool := true')
+
     # ---- util.mean / pv / rms / Sa / std: the statistics as list expressions over the valid samples
     # symbolic evaluation of the (straight-line) function bodies; same-module helper functions are inlined
     state = {}
